@@ -402,6 +402,9 @@ class TlsConn:
                 if version == TLS13:
                     self.ticket(ln)
                 continue
+            if d in (3, 4):          # warning-level alert (close_notify) sent by the client (3) / server (4): extension used by C13 only
+                self.alert(d == 4, 1, 0)
+                continue
             self.app(bool(d), rbytes(rnd, ln), pad)
 
     def ticket(self, ln=60):
